@@ -106,8 +106,11 @@ def work(shard, rec):
         # ---- flag combinations
         for show, save in ((True, False), (False, True), (True, True)):
             name = "+".join(n for n, f in (("show", show), ("save", save)) if f)
+            # the host's stdout is not always a text file object: tee/logger adapters with only write()/flush(), or None
+            kind = ["stringio", "stringio", "minimal", "none"][(i + (1 if show else 0) + (2 if save else 0)) % 4]
+            rec.count("stdout_kind:" + kind)
             try:
-                with IOWindow(scratch) as w:
+                with IOWindow(scratch, stdout_kind=kind) as w:
                     got = lib.ColorPair(text, bg, large_text=large).make_readable(mode=mode, very_readable=vr, show=show, save_report=save)
             except Exception as e:
                 rec.violation(f"make_readable(show={show}, save_report={save}) raised {type(e).__name__}: {e} for text={text!r} bg={bg!r} mode={mode} "
@@ -149,6 +152,17 @@ def work(shard, rec):
                 rec.violation(f"make_readable_bulk(save_report=True) raised {type(e).__name__}: {e} for {entries!r}", case)
                 continue
             rec.count("bulk_report_calls")
+            # ... and when the pairs arrive as a one-shot iterable
+            try:
+                with IOWindow(scratch) as w2:
+                    r2 = lib.make_readable_bulk(zip([e[0] for e in entries], [e[1] for e in entries], [e[2] if len(e) == 3 else False for e in entries]),
+                                                mode=mode, very_readable=vr, save_report=True)
+                r2ref = lib.make_readable_bulk([(e[0], e[1], e[2] if len(e) == 3 else False) for e in entries], mode=mode, very_readable=vr)
+                rec.count("bulk_report_iterable_calls")
+                if r2 != r2ref:
+                    rec.violation(f"make_readable_bulk(zip(...), save_report=True) returned {len(r2)} results, the plain call on the same entries {len(r2ref)}: {r2!r}", case)
+            except TypeError:
+                rec.count("one_shot_iterable_rejected")
             if r1 != r0 or r10 != r00:
                 rec.violation(f"make_readable_bulk(save_report=True) = {r1!r} but plain = {r0!r}", case)
             bad = file_events_ok(w, scratch, {"cm_colors_bulk_report.html"})
